@@ -60,6 +60,7 @@ def gen_scenario(rng, tier, prepop_kinds=()):
     return {"pl_exp": exp, "torrents": torrents, "nsearch": nsearch, "decoys": decoys, "prepop": prepop,
             "junk": rng.random() < 0.7, "seed": rng.randrange(1 << 30), "enum": rng.choice(["sorted", "reverse", "shuffle", "shuffle"]),
             "via": rng.choice(["lib", "lib", "cli"]), "meta_as_dir": ntor > 1 and rng.random() < 0.5,
+            "search_as_file": rng.random() < 0.15,
             "repeats": 1}
 
 
@@ -109,6 +110,9 @@ def build_world(case, scratch):
             rel = f[0]
             src = root if tree["single"] else os.path.join(root, rel)
             sd = rng.choice(world["search"])
+            if case.get("search_as_file") and "loose_file" not in world:
+                # this copy lives outside every search directory and is named directly as a search path
+                sd = os.path.join(scratch, "loose")
             depth = rng.choice([0, 1, 1, 2, 3])
             sub = [rng.choice(["k", "l", "m", "deep", "x1"]) + str(rng.randrange(100)) for _ in range(depth)]
             target = os.path.join(sd, *sub, os.path.basename(rel))
@@ -118,6 +122,8 @@ def build_world(case, scratch):
                 target = os.path.join(sd, *sub, f"alt{n}", os.path.basename(rel))
             os.makedirs(os.path.dirname(target), exist_ok=True)
             shutil.copyfile(src, target)
+            if case.get("search_as_file") and "loose_file" not in world:
+                world["loose_file"] = target
             with open(src, "rb") as fd:
                 dig = hashlib.sha256(fd.read()).hexdigest()
             world["genuine"].setdefault(os.path.basename(rel), set()).add(dig)
@@ -149,7 +155,7 @@ def build_world(case, scratch):
     # genuine files of other torrents with the same basename+size are decoys for this one only if bytes differ;
     # they are listed so that "placed == some search file with that basename" can be evaluated
     world["search_files"] = {}
-    for sd in world["search"]:
+    for sd in world["search"] + ([os.path.join(scratch, "loose")] if os.path.isdir(os.path.join(scratch, "loose")) else []):
         for dp, _, fs in os.walk(sd):
             for fn in fs:
                 with open(os.path.join(dp, fn), "rb") as fd:
@@ -194,12 +200,15 @@ def run_rebuild(case, world, captured):
     metas = [m["path"] for m in world["metas"]]
     if case.get("meta_as_dir"):
         metas = [os.path.dirname(metas[0])]
+    search = list(world["search"])
+    if case.get("search_as_file") and world.get("loose_file"):
+        search.append(world["loose_file"])          # a search path may also name one file directly
     try:
         if case["via"] == "cli":
-            oc = drive.cli_execute(["rebuild", "-m"] + metas + ["-c"] + world["search"] + ["-d", world["dest"]])
+            oc = drive.cli_execute(["rebuild", "-m"] + metas + ["-c"] + search + ["-d", world["dest"]])
         else:
             try:
-                oc = drive.Outcome(ret=rebuild.Assembler(metas, world["search"], world["dest"]).assemble_torrents())
+                oc = drive.Outcome(ret=rebuild.Assembler(metas, search, world["dest"]).assemble_torrents())
             except BaseException as exc:  # noqa
                 import traceback
                 oc = drive.Outcome(exc=exc, tb=traceback.format_exc())
@@ -244,6 +253,7 @@ def _reach():
 def _scenario_sig(case):
     return [[t["version"], t["tree"]["layout"], t["encoder"][0]] for t in case["torrents"]] + \
            [case["nsearch"], sorted({d["kind"] for d in case["decoys"]}), case["via"], case["meta_as_dir"],
+            bool(case.get("search_as_file")),
             sorted({p["kind"] for p in case["prepop"]})]
 
 
@@ -331,6 +341,8 @@ class C13:
             counters["decoy_met_first"] = 1
         if len(case["torrents"]) > 1:
             counters["batch_cases"] = 1
+        if case.get("search_as_file") and world.get("loose_file"):
+            counters["search_path_is_a_file_cases"] = 1
         sizes = [f[1] for t in case["torrents"] for f in t["tree"]["files"]]
         if any(s and s % pl == 0 for s in sizes):
             counters["boundary_cases"] = 1
@@ -396,6 +408,8 @@ class C14:
                 if alt and alt[0]:
                     assigned[alt[0]] = length
         src_roots = world["search"] + [os.path.dirname(world["metas"][0]["path"]), os.path.join(scratch, "orig")]
+        if os.path.isdir(os.path.join(scratch, "loose")):
+            src_roots.append(os.path.join(scratch, "loose"))
         decoy_first = 0
         returned = []
         for rep in range(case["repeats"]):
